@@ -19,7 +19,8 @@
     for one statement only ([C11_partial_not_last_except]); everything else holds
     for every sorted table. *)
 From Coq Require Import List NArith Bool Arith Sorted.
-From Atlas Require Import Base.Bytes Exec.ExecModel Exec.PendingModel Exec.RunModel Exec.PendingProofs.
+From Atlas Require Import Base.Bytes Exec.ExecModel Exec.PendingModel Exec.RunModel Exec.PendingProofs
+  Exec.StatusModel Exec.StatusProofs.
 Import ListNotations.
 
 Section C11.
@@ -288,6 +289,135 @@ Theorem C11_reader_sorted :
   forall (t : list rev), NoDup (map (@r_version hash) t) -> sorted_revs (read_revisions hash t).
 Proof. exact (read_revisions_sorted hash). Qed.
 
+(** * Status, apply-with-count and set-version agree with that decision
+    (model: Exec/StatusModel.v -- [report] = [StatusReporter.Report] of cmdlog.go,
+    [apply_plan] = the file selection of [migrateApplyRun], [migrate_set] = [migrateSetRun];
+    proofs: Exec/StatusProofs.v).
+
+    (H0) A database without a revisions table is reported exactly like an empty table on a
+    clean database: in particular the report starts at the latest checkpoint, like apply. *)
+Theorem C11_status_no_table :
+  forall (dirty : bool) (all : list file) (revs : list rev),
+  report false dirty all revs = report true false all [].
+Proof. exact (report_no_table hash). Qed.
+
+(** ... spelled out: with a checkpoint in the directory the report on a never-migrated
+    database lists the LAST checkpoint and the files after it -- exactly what apply runs
+    ([C11_first_run_checkpoint]) -- and nothing before it; without a checkpoint, every file. *)
+Theorem C11_status_fresh_checkpoint :
+  forall (dirty : bool) (revs : list rev),
+  (forall (pre : list file) (ck : file) (rest : list file),
+     f_ckpt ck = true -> (forall f, In f rest -> f_ckpt f = false) ->
+     report false dirty (pre ++ ck :: rest) revs =
+     SOk (mkStatus (ck :: rest) [] (ck :: rest) [] CurNone (NextVer (f_version ck)) 0 0 false false)) /\
+  (forall (all : list file),
+     (forall f, In f all -> f_ckpt f = false) -> all <> [] ->
+     report false dirty all revs =
+     SOk (mkStatus all [] all [] CurNone (NextVer (f_version (hd (mkFile [] [] false) all))) 0 0 false false)).
+Proof.
+  exact (fun dirty revs => conj (report_fresh_checkpoint hash dirty revs) (report_fresh_no_checkpoint hash dirty revs)).
+Qed.
+
+(** (H1) Every field of the report is the stated function of Pending's decision under the
+    default (linear) order: Pending / OutOfOrder are the decision's lists, Status is OK iff
+    nothing is pending, Next is the first pending version, Applied is the table, Available
+    is the pending list on a first run and the whole directory afterwards, Count/Total are
+    set exactly when the last revision is partially applied and not resolved ([count_total]:
+    Count = its Applied, Total = the number of statements of the file with that version).
+    Any other decision of Pending is not a report (see [C11_status_error]). *)
+Theorem C11_status_fields :
+  forall (dirty : bool) (all : list file) (revs : list rev) (s : mstatus hash),
+  report true dirty all revs = SOk s ->
+  s_applied s = revs /\
+  match fst (pending (mkCfg Linear None false dirty) all revs) with
+  | PFiles p =>
+      p <> [] /\ s_pending s = p /\ s_ooo s = [] /\ s_ok s = false /\
+      s_next s = NextVer (f_version (hd (mkFile [] [] false) p)) /\
+      s_available s = (match revs with [] => p | _ => all end) /\
+      count_total hash all revs (s_count s) (s_total s)
+  | PNoPending =>
+      s_pending s = [] /\ s_ooo s = [] /\ s_ok s = true /\ s_next s = NextLatest /\
+      s_available s = (match revs with [] => [] | _ => all end) /\
+      count_total hash all revs (s_count s) (s_total s)
+  | PNonLinear sk p =>
+      s_pending s = p /\ s_ooo s = sk /\ s_ok s = false /\ s_next s = NextEmpty /\
+      s_available s = [] /\ s_count s = 0 /\ s_total s = 0 /\
+      exists l, last_opt revs = Some l /\ s_current s = CurVer (r_version l)
+  | _ => False
+  end.
+Proof. exact (report_fields hash). Qed.
+
+(** Report never indexes an empty slice, whatever directory and table; an error it returns
+    is Pending's own error. *)
+Theorem C11_status_no_panic :
+  forall (has_table dirty : bool) (all : list file) (revs : list rev),
+  report has_table dirty all revs <> SPanic.
+Proof. exact (report_no_panic hash). Qed.
+
+Theorem C11_status_error :
+  forall (dirty : bool) (all : list file) (revs : list rev) (e : presult),
+  report true dirty all revs = SErr e -> fst (pending (mkCfg Linear None false dirty) all revs) = e.
+Proof. exact (report_err hash). Qed.
+
+(** (H2) Status agrees with what apply decides, for EVERY execution order: whenever status
+    answers, the decision of [migrate apply --exec-order o] (no baseline, not refused for
+    a non-clean database) on the same directory and table is [by_order o OutOfOrder Pending]:
+    linear rejects exactly when OutOfOrder is non-empty and otherwise runs Pending,
+    linear-skip runs Pending, non-linear runs OutOfOrder then Pending. *)
+Theorem C11_status_agrees :
+  forall (has_table dirty : bool) (all : list file) (revs : list rev) (s : mstatus hash) (c : cfg),
+  sorted_files all -> sorted_revs revs ->
+  c_baseline c = None -> c_dirty c && negb (c_allow_dirty c) = false ->
+  report has_table dirty all revs = SOk s ->
+  fst (pending c all (if has_table then revs else [])) = by_order (c_order c) (s_ooo s) (s_pending s).
+Proof. exact (status_agrees hash). Qed.
+
+(** (H3) [migrate apply n] selects exactly the first n pending files (all of them without an
+    amount, or when n exceeds their number) -- the same list [Executor.ExecuteN n] runs
+    ([C11_execute_n_first_n]); Pending's errors are passed on unchanged. *)
+Theorem C11_apply_n :
+  forall (c : cfg) (n : nat) (all : list file) (revs : list rev) (p : list file) (w : option rev),
+  pending c all revs = (PFiles p, w) ->
+  apply_plan c n all revs = (PFiles (if 0 <? n then firstn n p else p), w).
+Proof. exact (apply_plan_first_n hash). Qed.
+
+Theorem C11_apply_n_error :
+  forall (c : cfg) (n : nat) (all : list file) (revs : list rev) (r : presult) (w : option rev),
+  pending c all revs = (r, w) -> (forall p, r <> PFiles p) -> apply_plan c n all revs = (r, w).
+Proof. exact (apply_plan_error hash). Qed.
+
+(** (H4) Full statement: "after [migrate set v] no version <= v is pending":
+      forall c all revs v t' f, migrate_set (Some v) all revs = SetOk t' ->
+      In f (result_files (fst (pending c all t'))) -> bytes_leb (f_version f) v = false.
+    It is FALSE of the code: when the revision of [v] is partially applied, set marks it
+    resolved but keeps Applied < Total and Pending ignores the flag (open known finding
+    C11-set-on-partial-revision, reproduced through the CLI by the tie). *)
+Theorem C11_set_partial_refuted :
+  exists (c : cfg) (all : list file) (revs : list (ExecModel.rev unit)) (v : bytes) (g : file)
+         (t' : list (ExecModel.rev unit)) (f : file),
+    sorted_files all /\ sorted_revs revs /\ In g all /\ f_version g = v /\
+    migrate_set (Some v) all revs = SetOk t' /\
+    In f (result_files (fst (pending c all t'))) /\ bytes_leb (f_version f) v = true.
+Proof. exact set_partial_witness. Qed.
+
+(** ... and the exact characterisation that does hold, for every directory, table, version
+    of the directory and execution order: the table after set is again sorted, and a file
+    with version <= v that is still named is either (i) the file of [v] itself whose revision
+    was partially applied before the set (the finding above), or (ii) a file that was out of
+    order already before the set -- it has no revision although a later version <= v has one
+    -- which the selected execution order rejects / skips / runs first as before. *)
+Theorem C11_set_except :
+  forall (c : cfg) (all : list file) (revs : list rev) (v : bytes) (g : file) (t' : list rev) (f : file),
+  sorted_files all -> sorted_revs revs ->
+  In g all -> f_version g = v ->
+  migrate_set (Some v) all revs = SetOk t' ->
+  sorted_revs t' /\
+  (In f (result_files (fst (pending c all t'))) -> bytes_leb (f_version f) v = true ->
+   (f_version f = v /\ exists r, In r revs /\ r_version r = v /\ r_applied r <> r_total r) \/
+   (has_rev revs (f_version f) = false /\
+    exists r, In r revs /\ bytes_ltb (f_version f) (r_version r) = true /\ bytes_leb (r_version r) v = true)).
+Proof. exact (set_except hash). Qed.
+
 End C11.
 
 Print Assumptions C11_refines.
@@ -315,6 +445,16 @@ Print Assumptions C11_nothing_before_first_revision.
 Print Assumptions C11_execute_n_first_n.
 Print Assumptions C11_execute_n_error.
 Print Assumptions C11_reader_sorted.
+Print Assumptions C11_status_no_table.
+Print Assumptions C11_status_fresh_checkpoint.
+Print Assumptions C11_status_fields.
+Print Assumptions C11_status_no_panic.
+Print Assumptions C11_status_error.
+Print Assumptions C11_status_agrees.
+Print Assumptions C11_apply_n.
+Print Assumptions C11_apply_n_error.
+Print Assumptions C11_set_partial_refuted.
+Print Assumptions C11_set_except.
 
 (** * Non-vacuity: concrete directories / tables meeting the hypotheses. *)
 Definition xf (v : N) (ck : bool) : file := mkFile [v] [[65%N]; [66%N]] ck.
@@ -423,3 +563,72 @@ Example C11_execute_n_nonvacuous :
   fst (fst (fst (execute_n unit (fun _ _ => true) (fun _ => tt) (cfg_of Linear) 1 ex_all [xr 51 2 2; xr 49 2 2] [])))
     = RPend (PNonLinear [f2] [f4]).
 Proof. vm_compute. auto. Qed.
+
+(** (H) status / apply n / set *)
+Definition st_of (r : sresult unit) : mstatus unit :=
+  match r with SOk s => s | _ => mkStatus [] [] [] [] CurNone NextEmpty 0 0 false false end.
+
+(** never-touched database, directory 1, 2(ckpt), 3(ckpt), 4: the report starts at checkpoint 3 *)
+Example C11_status_no_table_nonvacuous :
+  let s := st_of (report false true ex_ck []) in
+  s_pending s = [k3; f4] /\ s_available s = [k3; f4] /\ s_next s = NextVer [51%N] /\
+  s_current s = CurNone /\ s_ok s = false /\
+  report (hash := unit) true true ex_ck [] = SErr PNotClean.
+Proof. vm_compute. repeat split; reflexivity. Qed.
+
+Example C11_status_fresh_checkpoint_nonvacuous :
+  ex_ck = [f1; k2] ++ k3 :: [f4] /\ f_ckpt k3 = true /\
+  report (hash := unit) false false ex_ck [] =
+  SOk (mkStatus [k3; f4] [] [k3; f4] [] CurNone (NextVer [51%N]) 0 0 false false).
+Proof. vm_compute. repeat split; reflexivity. Qed.
+
+(** files 1..4, revisions 1 and 3 (3 partially applied 1/2, error): file 2 is out of order *)
+Example C11_status_fields_nonvacuous :
+  let s := st_of (report true false ex_all [xr 49 2 2; mkRev [51%N] 1 2 [] true 2%N]) in
+  s_ooo s = [f2] /\ s_pending s = [f3; f4] /\ s_current s = CurVer [51%N] /\ s_next s = NextEmpty /\
+  let s2 := st_of (report true false [f1; f3; f4] [xr 49 2 2; mkRev [51%N] 1 2 [] true 2%N]) in
+  s_ooo s2 = [] /\ s_pending s2 = [f3; f4] /\ s_next s2 = NextVer [51%N] /\ s_count s2 = 1 /\ s_total s2 = 2 /\
+  s_available s2 = [f1; f3; f4] /\ s_error s2 = true /\
+  let s3 := st_of (report true false ex_all [xr 49 2 2; xr 50 2 2; xr 51 2 2; xr 52 2 2]) in
+  s_ok s3 = true /\ s_next s3 = NextLatest /\ s_pending s3 = [] /\ s_current s3 = CurVer [52%N].
+Proof. vm_compute. repeat split; reflexivity. Qed.
+
+Example C11_status_error_nonvacuous :
+  report true false [f1; f2; f4] ex_revs_p = SErr (PMissing [51%N]) /\
+  report true false [k2] [xr 51 1 2] = SFileNotFound [51%N].
+Proof. vm_compute. split; reflexivity. Qed.
+
+Example C11_status_agrees_nonvacuous :
+  let s := st_of (report true false ex_all ex_revs) in
+  s_ooo s = [f2] /\ s_pending s = [f4] /\
+  fst (pending (cfg_of NonLinear) ex_all ex_revs) = PFiles [f2; f4] /\
+  by_order NonLinear (s_ooo s) (s_pending s) = PFiles [f2; f4] /\
+  by_order LinearSkip (s_ooo s) (s_pending s) = PFiles [f4] /\
+  by_order Linear (s_ooo s) (s_pending s) = PNonLinear [f2] [f4].
+Proof. vm_compute. repeat split; reflexivity. Qed.
+
+Example C11_apply_n_nonvacuous :
+  apply_plan (hash := unit) (cfg_of Linear) 1 ex_ck [] = (PFiles [k3], None) /\
+  apply_plan (hash := unit) (cfg_of Linear) 0 ex_ck [] = (PFiles [k3; f4], None) /\
+  apply_plan (hash := unit) (cfg_of Linear) 5 ex_ck [] = (PFiles [k3; f4], None) /\
+  apply_plan (cfg_of NonLinear) 1 ex_all ex_revs = (PFiles [f2], None) /\
+  apply_plan (cfg_of Linear) 1 ex_all ex_revs = (PNonLinear [f2] [f4], None).
+Proof. vm_compute. repeat split; reflexivity. Qed.
+
+(** set 3 on revisions 1, 4 (2 and 3 never applied): 4 is deleted, 2 and 3 are recorded;
+    set 4 on revisions 1, 4: nothing changes and 2, 3 stay out of order (case ii);
+    set 3 on a partially applied 3 (case i). *)
+Example C11_set_nonvacuous :
+  migrate_set (Some [51%N]) ex_all [xr 49 2 2; xr 52 2 2] =
+    SetOk [xr 49 2 2; mkRev [50%N] 0 0 [] false 4%N; mkRev [51%N] 0 0 [] false 4%N] /\
+  fst (pending (cfg_of Linear) ex_all [xr 49 2 2; mkRev [50%N] 0 0 [] false 4%N; mkRev [51%N] 0 0 [] false 4%N])
+    = PFiles [f4] /\
+  migrate_set (Some [52%N]) ex_all [xr 49 2 2; xr 52 2 2] = SetOk [xr 49 2 2; xr 52 2 2] /\
+  fst (pending (cfg_of Linear) ex_all [xr 49 2 2; xr 52 2 2]) = PNonLinear [f2; f3] [] /\
+  migrate_set (Some [51%N]) ex_all ex_revs_p = SetOk [xr 49 2 2; mkRev [51%N] 1 2 [] false 6%N] /\
+  fst (pending (cfg_of LinearSkip) ex_all [xr 49 2 2; mkRev [51%N] 1 2 [] false 6%N]) = PFiles [f3; f4] /\
+  migrate_set (Some [57%N]) ex_all ex_revs = SetNotFound /\
+  migrate_set (hash := unit) None ex_all [] = SetArgs /\
+  migrate_set None ex_all [xr 49 2 2] =
+    SetOk [xr 49 2 2; mkRev [50%N] 0 0 [] false 4%N; mkRev [51%N] 0 0 [] false 4%N; mkRev [52%N] 0 0 [] false 4%N].
+Proof. vm_compute. repeat split; reflexivity. Qed.
